@@ -5,7 +5,8 @@ import collections, concurrent.futures, subprocess, sys, os
 V = os.path.dirname(os.path.dirname(os.path.abspath(__file__)))
 kind, path = sys.argv[1], sys.argv[2]
 P = int(sys.argv[sys.argv.index("-P") + 1]) if "-P" in sys.argv else 4
-extra = [a for a in sys.argv[3:] if a.startswith("--")]
+extra = [a for a in sys.argv[3:] if a.startswith("--") and not a.startswith("--prefix=")]
+prefix = next((a.split("=", 1)[1] for a in sys.argv[3:] if a.startswith("--prefix=")), None)  # scratch worktree /tmp/<prefix>-<PROP>, deliverables /tmp/<prefix>-<PROP>-out
 groups = collections.OrderedDict()
 for l in open(path):
     f = l.split()
@@ -15,6 +16,8 @@ def run(items):
     for f in items:
         if kind == "seed":
             cmd = [f"{V}/tools/pareval.py", f[0], f[1]] + (["--checks", f[2]] if len(f) > 2 else []) + extra
+            if prefix:
+                cmd += ["--wt", f"/tmp/{prefix}-{f[0]}", "--out", f"/tmp/{prefix}-{f[0]}-out"]
             log = f"/tmp/pe-{f[0]}-{f[1]}.log"
         else:
             cmd = [f"{V}/tools/refeval.py", f[0], f[1]] + (["--checks", f[2]] if len(f) > 2 else []) + extra
